@@ -9,8 +9,9 @@
  * references before the teardown: modules and context die inside m_ctx_deregister), CB (what a stop callback does
  * during the teardown: 0 nothing, 1 the first one that runs deregisters the module with the highest index through the
  * public call, 2 it calls m_ctx_deregister() itself - must not break the teardown in progress).
- * Symbolic: errno left by callbacks, M_CTX_USERDATA_AUTOFREE bit, M_CTX_NAME_AUTOFREE bit (when the name is not
- * duplicated), flags of the fresh context (same two bits), quit code (LOOPED). */
+ * UDAUTO / NAUTO (M_CTX_USERDATA_AUTOFREE / M_CTX_NAME_AUTOFREE of the context, the name not being duplicated),
+ * UD2AUTO (auto-free user data of the fresh context).
+ * Symbolic: errno left by callbacks, module user data identity, quit code (LOOPED). */
 #include "vf.h"
 #include "vf_os.h"
 #include <module/mod.h>
@@ -45,6 +46,18 @@
 #ifndef CB
 #define CB 0
 #endif
+#ifndef UDAUTO
+#define UDAUTO 0
+#endif
+#ifndef NAUTO
+#define NAUTO 0
+#endif
+#ifndef UD2AUTO
+#define UD2AUTO 0
+#endif
+#if NAUTO && CNDUP
+#error "NAUTO is about a name that is not duplicated"
+#endif
 #if LOOPED && NMOD == 0 && !PERSIST
 #error "a non-persistent context without modules is released when its loop returns: nothing left to tear down"
 #endif
@@ -57,6 +70,7 @@ static void my_action(int who, int kind, struct _mod *m, const m_queue_t *q);
 
 #include "c07_common.h"
 static char *cname; static void *cud, *ud2;
+static char udcell[2];
 
 static _Bool tearing; static int cb_done;
 static m_mod_t *victim;
@@ -87,15 +101,15 @@ int vf_main(void) {
     c07_hook();
     cname = c07_user_block(0, 4); cname[0] = 'c'; cname[1] = 't'; cname[2] = 'x'; cname[3] = 0;
     cud = c07_user_block(1, 1);
-    _Bool ud_auto = nondet_bool();
-    _Bool name_auto = CNDUP ? 0 : nondet_bool();
+    const _Bool ud_auto = UDAUTO, name_auto = NAUTO;   /* per job: a symbolic flag word makes the PERSIST / NAME_DUP tests inside the library symbolic */
     m_ctx_flags cfl = (PERSIST ? M_CTX_PERSIST : 0) | (CNDUP ? M_CTX_NAME_DUP : 0) | (ud_auto ? M_CTX_USERDATA_AUTOFREE : 0)
                       | (name_auto ? M_CTX_NAME_AUTOFREE : 0);
     r = m_ctx_register(cname, cfl, cud); VF_CHECK(r == 0, "a thread without a context registers one");
     VF_CHECK(m_ctx_len() == 0 && m_ctx_userdata() == cud, "fresh context is empty and carries the user data");
 
+    _Bool which_ud = nondet_bool();
     for (int i = 0; i < NMOD; i++) {
-        r = m_mod_register(vf_names[i], &vf_mods[i], &vf_hook, MNDUP ? M_MOD_NAME_DUP : 0, NULL);
+        r = m_mod_register(vf_names[i], &vf_mods[i], &vf_hook, MNDUP ? M_MOD_NAME_DUP : 0, &udcell[which_ud]);
         VF_CHECK(r == 0 && vf_mods[i] != NULL, "module registered");
     }
     VF_CHECK(m_ctx_len() == NMOD, "context counts its modules");
@@ -141,6 +155,7 @@ int vf_main(void) {
     for (int i = 0; i < NMOD; i++) {
 #if !DROP
         VF_CHECK(m_mod_is(vf_mods[i], M_MOD_ZOMBIE), "every module of a deregistered context is ZOMBIE");
+        VF_CHECK(m_mod_userdata(vf_mods[i]) == &udcell[which_ud], "a zombie still answers the plain getters");
 #endif
         if (active[i]) VF_CHECK(vf_nstop[i] - base[i] == 1, "a RUNNING or PAUSED module is stopped through its stop callback, exactly once");
     }
@@ -151,7 +166,7 @@ int vf_main(void) {
 #endif
 
     /* the thread can start over */
-    _Bool ud2_auto = nondet_bool();
+    const _Bool ud2_auto = UD2AUTO;
     ud2 = c07_user_block(2, 1);
     r = m_ctx_register("fresh", ud2_auto ? M_CTX_USERDATA_AUTOFREE : 0, ud2);
     VF_CHECK(r == 0, "after the release the thread registers a fresh context");
